@@ -49,10 +49,11 @@ for k in (0, 1, 2):
 for nm in ("find_numbers_percent", "find_total_from_percent", "number_calc", "calc_percent", "convert_money", "money_money", "money_number"):
     add(H("REPLAY", "m_replay_" + nm, "verif_k::c05::m_replay_" + nm, "", kani=False))
 
-for nm in ("time_calc", "time_with_timezone", "unixtime", "to_unixtime", "to_duration_dates"):
+for nm in ("time_calc", "time_with_timezone", "unixtime", "to_unixtime", "to_duration_dates", "to_duration_times"):
     add(H("REPLAY", "m_replay_" + nm, "verif_k::c10::m_replay_" + nm, "", kani=False))
 for nm in ("duration_parse", "as_duration", "duration_calc", "combine_durations", "duration_print", "as_time", "number_print", "number_type_convert"):
     add(H("REPLAY", "m_replay_" + nm, "verif_k::c10::m_replay_" + nm, "", kani=False))
+add(H("REPLAY", "m_replay_expression", "verif_k::c02::m_replay_expression", "", kani=False))
 add(H("REPLAY", "d_dump_units", "verif_k::c12::d_dump_units", "", kani=False))
 add(H("REPLAY", "k_replay_session_reuse", "verif_k::c04::k_replay_session_reuse", "", kani=False))
 
